@@ -14,6 +14,7 @@ pub mod h_greedy;
 pub mod h_hide;
 pub mod h_leaf;
 pub mod h_msg;
+pub mod h_pure;
 pub mod h_rw;
 
 /// `#[kani::proof]` wrappers for the harnesses selected by the runner
@@ -29,6 +30,7 @@ pub fn all_harnesses() -> Vec<(&'static str, fn())> {
     v.extend_from_slice(h_hide::HARNESSES);
     v.extend_from_slice(h_leaf::HARNESSES);
     v.extend_from_slice(h_msg::HARNESSES);
+    v.extend_from_slice(h_pure::HARNESSES);
     v.extend_from_slice(h_rw::HARNESSES);
     v
 }
